@@ -78,6 +78,35 @@ def rule_esc_string(ctx, f):
                 txt = consts_written(wb, regs[v] | {tg})
                 if any(x.startswith("\\") for x in txt):
                     escaped.add(v)
+    # what is written for a special byte must be something the reader turns back into that byte: either a backslash followed by the raw
+    # byte where the reader's escape table maps that character to itself ( \\ \( \) ), or a letter escape INSTEAD of the byte ( \r for CR )
+    import json as _json
+    import os as _os
+    spec = _json.load(open(_os.path.join(_os.path.dirname(_os.path.dirname(_os.path.abspath(__file__))), "spec", "iso32000.json")))
+    esc_tab = {ord(k): v for k, v in spec.get("string_escapes", {}).items()}
+    wa = {bi for bi, t in F.calls(wb) if last_seg(F.callee_name(t)) == "write_all"}
+    loops = cfg.loops()
+    for i, bb in enumerate(wb["blocks"]):
+        t = bb["term"]
+        if t["k"] == "switch" and t["discr_ty"] == "u8":
+            arms = {a[0]: a[1] for a in t["arms"]}
+            regs = exclusive_regions(cfg, dict(arms, **{"default": t["otherwise"]}))
+            heads = {h for h, body in loops.items() if i in body}
+            for v, tg in arms.items():
+                if v not in special:
+                    continue
+                txt = [x for x in consts_written(wb, regs[v] | {tg}) if x.startswith("\\")]
+                raw_follows = any(w == tg or w in cfg.reachable_from(tg, avoid=heads) for w in wa)
+                good = False
+                for x in txt:
+                    if x == "\\" and raw_follows and esc_tab.get(v) == v:
+                        good = True
+                    if len(x) == 2 and not raw_follows and esc_tab.get(ord(x[1])) == v:
+                        good = True
+                if not good:
+                    escaped.discard(v)
+                    ctx.bad("C04-ESC-str", "PdfString::serialize#escape-of-%d" % v, "byte %d is written as %s%s, which the string reader does not turn back into %d "
+                            "(a backslash before a raw CR is a line continuation and vanishes)" % (v, txt, " + the raw byte" if raw_follows else "", v), t["span"])
     miss = special - escaped
     ctx.check(not miss, "C04-ESC-str", "PdfString::serialize#escapes",
               "bytes %s are special to the string reader but written raw in a literal string (read back differently)" % fmt_set(miss), wb["span"],
@@ -91,6 +120,25 @@ def rule_esc_string(ctx, f):
               "strings are written in hexadecimal when they contain %s (expected: any byte >= 0x80)" % fmt_set(hexset), wb["span"], detail=">= 0x80 -> <hex>")
     lh = [t for bi, t in F.calls(wb) if "new_lower_hex" in t.get("callee_full", "") or "new_upper_hex" in t.get("callee_full", "")]
     ctx.check(bool(lh), "C04-SIB", "PdfString::serialize#hex-digits", "the hex form is not written with {:02x}", wb["span"], detail="{:02x}: digits 0-9a-f, within the reader's digit set")
+    # two digits per byte: the format carries the width 02 (a bare {:x} writes 5 as one digit and shifts every following nibble)
+    import re as _re
+    a = adj.get_adj(f, adj.OBJECT_KEYWORDS)
+    fn = a.ast.fn_for_body(wb)
+    if fn is None:
+        ctx.lost("C04-SIB", "syntax tree of PdfString::serialize")
+    else:
+        def _walk(n):
+            if isinstance(n, dict):
+                yield n
+                for v2 in n.values():
+                    yield from _walk(v2)
+            elif isinstance(n, list):
+                for x2 in n:
+                    yield from _walk(x2)
+        fmts = [n["fmt"] for n in _walk(fn["body"]) if n.get("k") == "macro" and n.get("fmt")]
+        hexes = [x for x in fmts if _re.search(r"\{[^}]*[xX]\}", x)]
+        ctx.check(bool(hexes) and all(_re.search(r"\{:02[xX]\}", x) for x in hexes), "C04-SIB", "PdfString::serialize#hex-width",
+                  "bytes of a hex string are not written as exactly two digits (formats: %s): the reader pairs digits two by two" % hexes, wb["span"], detail="{:02x}")
 
 
 def rule_esc_name(ctx, f):
